@@ -11,7 +11,7 @@ SCOPE = {
     'quick': 'callables with <=2 positional-or-keyword parameters, optional *args, <=1 keyword-only parameter, optional **kw, as '
              'function / bound method / callable instance / partial; calls with 0..3 positionals and every ordered selection of <=2 '
              'keywords; 52 keymap configurations (raw, md5-hash, builtin-hash, string, repr-/pickle-/dill-picklemap x flat x typed x sentinel)',
-    'reserved names': 'both tiers: every parameter name that occurs in klepto\'s own signatures (collected from the source: self, func, ignored, ...) as the name of a user parameter, in 6 callable forms, every way of passing it, 7 keymaps and 3 decorators',
+    'reserved names': 'both tiers: every parameter name that occurs in klepto\'s own signatures (collected from the source: self, func, ignored, ...) as the name of a user parameter, in 6 callable forms, every way of passing it, 7 keymaps and 3 decorators; functions named like a method of their first argument (count, index, join, keys, format) with 5 kinds of first argument',
     'thorough': 'callables with <=3 positional-or-keyword parameters, optional *args, <=2 keyword-only parameters, optional **kw; '
                 'calls with 0..4 positionals and every ordered selection of <=3 keywords; the same 52 keymap configurations',
 }
@@ -23,18 +23,21 @@ ASSUMPTIONS = ['bounded scope, not a proof', 'ground truth for binding = calling
 def units(tier, seed):
     from bounded import reserved_names as RN
     n = len(RN.names())
-    return KC.unit_list('thorough' if tier == 'thorough' else 'quick') + [('reserved', lo, min(lo + 8, n)) for lo in range(0, n, 8)]
+    return KC.unit_list('thorough' if tier == 'thorough' else 'quick') + [('reserved', lo, min(lo + 8, n)) for lo in range(0, n, 8)] + [('method-names',)]
 
 
 def run_unit(unit):
     if unit[0] == 'reserved':
         from bounded import reserved_names as RN
         return RN.run_c09(unit[1], unit[2])
+    if unit[0] == 'method-names':
+        from bounded import reserved_names as RN
+        return RN.run_method_names()
     return KC.run_c09(unit)
 
 
 def replay(w):
-    if 'reserved' in w:
+    if 'reserved' in w or 'methodname' in w:
         from bounded import reserved_names as RN
         return RN.replay(w)
     return KC.replay_c09(w)
